@@ -19,6 +19,11 @@ theorem R_eq (s : Nat) : R F s = F s (fun d => if d < s then some (R F d) else n
   rw [R]
   congr 1
 
+theorem ready_spec (st : St) (s : Nat) : ready g st s = true ↔
+    s < g.size ∧ (∀ d ∈ g.deps s, (st.res d).isSome = true) ∧ s ∉ st.started := by
+  simp only [ready, Bool.and_eq_true, List.all_eq_true, decide_eq_true_eq, Bool.not_eq_true',
+    List.contains_eq_mem, decide_eq_false_iff_not, and_assoc]
+
 /-- all values present (complete or in flight) are the sequential ones -/
 def Inv (st : St) : Prop :=
   (∀ s v, st.res s = some v → v = R F s) ∧
@@ -36,8 +41,7 @@ theorem F_ready (ha : Acyclic g) (hl : DepLocal g F) (st : St) (hi : Inv F st) (
   apply hl
   intro d hd
   have hlt := ha s d hd
-  simp only [ready, Bool.and_eq_true, List.all_eq_true] at hr
-  have := hr.1 d hd
+  have := ((ready_spec g st s).mp hr).2.1 d hd
   cases hv : st.res d with
   | none => simp [hv] at this
   | some v => simp [hlt, hi.1 d v hv]
@@ -116,5 +120,305 @@ theorem run_inv (ha : Acyclic g) (hl : DepLocal g F) (es : List Event) : ∀ (st
     | some st1 =>
       simp only [hs] at h
       exact ih st1 st' (step_inv g F ha hl st st1 e hi hs) h
+
+end Sched
+
+namespace Sched
+/-! ### Termination measure -/
+
+theorem filter_len_mono (l : List Nat) (p q : Nat → Bool) (h : ∀ x, p x = true → q x = true) :
+    (l.filter p).length ≤ (l.filter q).length := by
+  induction l with
+  | nil => simp
+  | cons a l ih =>
+    simp only [List.filter_cons]
+    cases hp : p a with
+    | false => cases hq : q a <;> simp <;> omega
+    | true => simp [h a hp]; omega
+
+theorem filter_len_strict (l : List Nat) (p q : Nat → Bool) (h : ∀ x, p x = true → q x = true)
+    (s : Nat) (hs : s ∈ l) (hq : q s = true) (hp : p s = false) :
+    (l.filter p).length + 1 ≤ (l.filter q).length := by
+  induction l with
+  | nil => cases hs
+  | cons a l ih =>
+    simp only [List.filter_cons]
+    simp only [List.mem_cons] at hs
+    rcases hs with rfl | hs
+    · simp only [hp, hq, if_true, List.length_cons]
+      have := filter_len_mono l p q h
+      simp; omega
+    · have := ih hs
+      cases hpa : p a with
+      | false => cases hqa : q a <;> simp <;> omega
+      | true => simp [h a hpa]; omega
+
+variable (g : Graph) (F : Nat → Env → Val)
+
+def unstartedL (n : Nat) (started : List Nat) : List Nat := (List.range n).filter (fun s => !(started.contains s))
+def unstarted (st : St) : List Nat := unstartedL g.size st.started
+
+/-- 4·(SCCs not yet started) + 2·(batches in their interface phase) + (busy workers) -/
+def measure (st : St) : Nat := 4 * (unstarted g st).length + 2 * st.inflight.length + st.busy.length
+
+theorem unstarted_add (n : Nat) (l l' : List Nat) (s : Nat) (hsub : ∀ x, x ∈ l → x ∈ l')
+    (hs : s < n) (hn : s ∉ l) (hi : s ∈ l') :
+    (unstartedL n l').length + 1 ≤ (unstartedL n l).length := by
+  unfold unstartedL
+  apply filter_len_strict _ _ _ _ s (by simp [hs])
+  · simp [hn]
+  · simp [hi]
+  · intro x hx
+    simp only [Bool.not_eq_true', List.contains_eq_mem, decide_eq_false_iff_not] at hx ⊢
+    exact fun h => hx (hsub x h)
+
+theorem filter_ne_len (l : List (Nat × List (Nat × Val))) (w : Nat) (h : ∃ p ∈ l, p.1 = w) :
+    (l.filter (fun p => p.1 != w)).length + 1 ≤ l.length := by
+  induction l with
+  | nil => obtain ⟨p, hp, _⟩ := h; cases hp
+  | cons a l ih =>
+    simp only [List.filter_cons]
+    by_cases ha : a.1 = w
+    · simp [ha]
+      exact List.length_filter_le _ _
+    · have : ∃ p ∈ l, p.1 = w := by
+        obtain ⟨p, hp, hpw⟩ := h
+        simp only [List.mem_cons] at hp
+        rcases hp with rfl | hp
+        · exact absurd hpw ha
+        · exact ⟨p, hp, hpw⟩
+      have := ih this
+      simp [ha]; omega
+
+theorem filter_ne_nat_len (l : List Nat) (w : Nat) (h : w ∈ l) : (l.filter (· != w)).length + 1 ≤ l.length := by
+  induction l with
+  | nil => cases h
+  | cons a l ih =>
+    simp only [List.filter_cons]
+    by_cases ha : a = w
+    · simp [ha]; exact List.length_filter_le _ _
+    · simp only [List.mem_cons] at h
+      rcases h with rfl | h
+      · exact absurd rfl ha
+      · have := ih h
+        simp [ha]; omega
+
+/-- every event strictly decreases the measure -/
+theorem step_measure (st st' : St) (e : Event) (hs : step g F st e = some st') :
+    measure g st' + 1 ≤ measure g st := by
+  cases e with
+  | fresh s =>
+    simp only [step] at hs
+    split at hs
+    · rename_i hr
+      injection hs with hs; subst hs
+      obtain ⟨h1, _, h3⟩ := (ready_spec g st s).mp hr
+      have := unstarted_add g.size st.started (s :: st.started) s (fun x hx => by simp [hx]) h1 h3 (by simp)
+      simp only [measure, unstarted] at this ⊢
+      omega
+    · cases hs
+  | submit batch w =>
+    simp only [step] at hs
+    split at hs
+    · rename_i hc
+      injection hs with hs; subst hs
+      simp only [Bool.and_eq_true, List.all_eq_true, Bool.not_eq_true', List.contains_eq_mem,
+        decide_eq_false_iff_not, decide_eq_true_eq] at hc
+      cases hb : batch with
+      | nil => simp [hb] at hc
+      | cons s rest =>
+        have hmem : s ∈ batch := by rw [hb]; simp
+        obtain ⟨h1, _, h3⟩ := (ready_spec g st s).mp (hc.1.1.2 s hmem)
+        have := unstarted_add g.size st.started (batch ++ st.started) s (fun x hx => by simp [hx]) h1 h3 (by simp [hmem])
+        rw [hb] at this
+        simp only [measure, unstarted, List.length_cons] at this ⊢
+        omega
+    · cases hs
+  | ifaceDone w =>
+    simp only [step] at hs
+    split at hs
+    · rename_i w' vals hf
+      injection hs with hs; subst hs
+      have hmem := List.mem_of_find?_eq_some hf
+      have hkey : (w', vals).1 = w := by
+        have := List.find?_some hf
+        simpa using this
+      have := filter_ne_len st.inflight w ⟨(w', vals), hmem, hkey⟩
+      have hu : unstarted g { st with res := setAll st.res vals, inflight := st.inflight.filter (fun p => p.1 != w) }
+          = unstarted g st := rfl
+      simp only [measure, hu]
+      omega
+    · cases hs
+  | implDone w =>
+    simp only [step] at hs
+    split at hs
+    · rename_i hc
+      injection hs with hs; subst hs
+      simp only [Bool.and_eq_true, List.contains_eq_mem, decide_eq_true_eq] at hc
+      have := filter_ne_nat_len st.busy w hc.1
+      have hu : unstarted g { st with busy := st.busy.filter (· != w) } = unstarted g st := rfl
+      simp only [measure, hu]
+      omega
+    · cases hs
+
+theorem run_measure (es : List Event) : ∀ (st st' : St), run g F st es = some st' →
+    measure g st' + es.length ≤ measure g st := by
+  induction es with
+  | nil => intro st st' h; simp only [run] at h; injection h with h; subst h; simp
+  | cons e es ih =>
+    intro st st' h
+    simp only [run] at h
+    cases hs : step g F st e with
+    | none => simp [hs] at h
+    | some st1 =>
+      simp only [hs] at h
+      have a := step_measure g F st st1 e hs
+      have b := ih st1 st' h
+      simp only [List.length_cons]
+      omega
+
+end Sched
+
+namespace Sched
+/-! ### Bookkeeping invariant: every started SCC is finished or in flight -/
+variable (g : Graph) (F : Nat → Env → Val)
+
+def Book (st : St) : Prop :=
+  (∀ s ∈ st.started, (st.res s).isSome = true ∨ ∃ p ∈ st.inflight, ∃ v, (s, v) ∈ p.2) ∧
+  (∀ p ∈ st.inflight, p.1 ∈ st.busy) ∧
+  (st.inflight.map (·.1)).Nodup
+
+theorem set_isSome (e : Env) (s x : Nat) (v : Val) (h : (e x).isSome = true) : ((e.set s v) x).isSome = true := by
+  unfold Env.set; split <;> simp [h]
+
+theorem setAll_mono (vals : List (Nat × Val)) : ∀ (e : Env) (x : Nat), (e x).isSome = true →
+    ((setAll e vals) x).isSome = true := by
+  induction vals with
+  | nil => intro e x h; exact h
+  | cons p r ih => intro e x h; obtain ⟨s, v⟩ := p; exact ih _ x (set_isSome e s x v h)
+
+theorem setAll_mem (vals : List (Nat × Val)) : ∀ (e : Env) (s : Nat) (v : Val), (s, v) ∈ vals →
+    ((setAll e vals) s).isSome = true := by
+  induction vals with
+  | nil => intro e s v h; cases h
+  | cons p r ih =>
+    intro e s v h
+    obtain ⟨s', v'⟩ := p
+    simp only [List.mem_cons] at h
+    rcases h with h | h
+    · injection h with h1 h2; subst h1
+      exact setAll_mono r _ s (by simp [Env.set])
+    · exact ih _ s v h
+
+theorem book_init : Book St.init := by
+  refine ⟨?_, ?_, ?_⟩
+  · intro s hs; cases hs
+  · intro p hp; cases hp
+  · simp [St.init]
+
+theorem nodup_map_inj (l : List (Nat × List (Nat × Val))) (h : (l.map (·.1)).Nodup) :
+    ∀ p ∈ l, ∀ q ∈ l, p.1 = q.1 → p = q := by
+  induction l with
+  | nil => intro p hp; cases hp
+  | cons a l ih =>
+    simp only [List.map_cons, List.nodup_cons] at h
+    intro p hp q hq hpq
+    simp only [List.mem_cons] at hp hq
+    rcases hp with rfl | hp <;> rcases hq with rfl | hq
+    · rfl
+    · exact absurd (List.mem_map.mpr ⟨q, hq, hpq.symm⟩) h.1
+    · exact absurd (List.mem_map.mpr ⟨p, hp, hpq⟩) h.1
+    · exact ih h.2 p hp q hq hpq
+
+theorem step_book (st st' : St) (e : Event) (hb : Book st) (hs : step g F st e = some st') : Book st' := by
+  obtain ⟨b1, b2, b3⟩ := hb
+  cases e with
+  | fresh s =>
+    simp only [step] at hs
+    split at hs
+    · injection hs with hs; subst hs
+      refine ⟨fun x hx => ?_, b2, b3⟩
+      simp only [List.mem_cons] at hx
+      rcases hx with rfl | hx
+      · left; simp [Env.set]
+      · rcases b1 x hx with h | h
+        · left; exact set_isSome _ _ _ _ h
+        · right; exact h
+    · cases hs
+  | submit batch w =>
+    simp only [step] at hs
+    split at hs
+    · rename_i hc
+      injection hs with hs; subst hs
+      simp only [Bool.and_eq_true, List.all_eq_true, Bool.not_eq_true', List.contains_eq_mem,
+        decide_eq_false_iff_not, decide_eq_true_eq] at hc
+      refine ⟨fun x hx => ?_, fun p hp => ?_, ?_⟩
+      · simp only [List.mem_append] at hx
+        rcases hx with hx | hx
+        · right
+          exact ⟨(w, batch.map (fun s => (s, F s st.res))), by simp, F x st.res, by
+            simp only [List.mem_map]; exact ⟨x, hx, rfl⟩⟩
+        · rcases b1 x hx with h | ⟨p, hp, v, hv⟩
+          · left; exact h
+          · right; exact ⟨p, by simp [hp], v, hv⟩
+      · simp only [List.mem_cons] at hp
+        rcases hp with rfl | hp
+        · simp
+        · simp [b2 p hp]
+      · simp only [List.map_cons, List.nodup_cons]
+        refine ⟨?_, b3⟩
+        intro hmem
+        simp only [List.mem_map] at hmem
+        obtain ⟨p, hp, hpw⟩ := hmem
+        exact hc.2 (hpw ▸ b2 p hp)
+    · cases hs
+  | ifaceDone w =>
+    simp only [step] at hs
+    split at hs
+    · rename_i w' vals hf
+      injection hs with hs; subst hs
+      have hmem := List.mem_of_find?_eq_some hf
+      have hkey : w' = w := by
+        have := List.find?_some hf
+        simpa using this
+      refine ⟨fun x hx => ?_, fun p hp => b2 p (List.mem_filter.mp hp).1, ?_⟩
+      · rcases b1 x hx with h | ⟨p, hp, v, hv⟩
+        · left; exact setAll_mono vals _ x h
+        · by_cases hpk : p.1 = w
+          · -- the same worker: by distinctness of keys it is the batch that just completed
+            have : p = (w', vals) := by
+              have hn := b3
+              have h1 : p.1 = (w', vals).1 := by simp [hpk, hkey]
+              exact nodup_map_inj st.inflight hn p hp (w', vals) hmem h1
+            left
+            rw [this] at hv
+            exact setAll_mem vals _ x v hv
+          · right
+            exact ⟨p, List.mem_filter.mpr ⟨hp, by simp [hpk]⟩, v, hv⟩
+      · exact (List.Nodup.sublist ((List.filter_sublist).map _) b3)
+    · cases hs
+  | implDone w =>
+    simp only [step] at hs
+    split at hs
+    · rename_i hc
+      injection hs with hs; subst hs
+      simp only [Bool.and_eq_true, List.contains_eq_mem, decide_eq_true_eq, Bool.not_eq_true',
+        List.any_eq_false, beq_iff_eq] at hc
+      refine ⟨b1, fun p hp => ?_, b3⟩
+      have hne : p.1 ≠ w := fun h => hc.2 p hp h
+      exact List.mem_filter.mpr ⟨b2 p hp, by simp [hne]⟩
+    · cases hs
+
+theorem run_book (es : List Event) : ∀ (st st' : St), Book st → run g F st es = some st' → Book st' := by
+  induction es with
+  | nil => intro st st' hb h; simp only [run] at h; injection h with h; subst h; exact hb
+  | cons e es ih =>
+    intro st st' hb h
+    simp only [run] at h
+    cases hs : step g F st e with
+    | none => simp [hs] at h
+    | some st1 =>
+      simp only [hs] at h
+      exact ih st1 st' (step_book g F st st1 e hb hs) h
 
 end Sched
